@@ -114,6 +114,10 @@ func validateBasicSyntax(exprStr string) error {
 	operators := []string{"+", "-", "*", "/", "%", "^", "=", "!=", "<>", ">", "<", ">=", "<="}
 	for _, op1 := range operators {
 		for _, op2 := range operators {
+			// A minus after another operator is a unary minus: "x - - y", "a * - b"
+			if op2 == "-" {
+				continue
+			}
 			if strings.Contains(trimmed, " "+op1+" "+op2+" ") {
 				return fmt.Errorf("consecutive operators")
 			}
@@ -122,7 +126,8 @@ func validateBasicSyntax(exprStr string) error {
 
 	// Check if expression starts or ends with operator
 	for _, op := range operators {
-		if strings.HasPrefix(trimmed, op+" ") {
+		// A leading minus is a unary minus: "- x", "- sign(x)"
+		if op != "-" && strings.HasPrefix(trimmed, op+" ") {
 			return fmt.Errorf("expression cannot start with operator")
 		}
 		if strings.HasSuffix(trimmed, " "+op) {
